@@ -377,7 +377,7 @@ func onlyEmptinessOfNodeCount(p *Program, ev *storeEvent) string {
 		for _, pair := range [][2]ssa.Value{{bo.X, bo.Y}, {bo.Y, bo.X}} {
 			if k, ok := constInt(pair[1]); ok && k == 0 {
 				if ld, ok := deref(pair[0]); ok {
-					if _, fv, fa := fieldOfAddr(ld); fa != nil && fv.Name() == "nodeCnt" {
+					if _, fv, fa := fieldOfAddr(ld); fa != nil && fv.Name() == nodeCounterField(p) {
 						return true
 					}
 				}
@@ -437,4 +437,36 @@ func onlyEmptinessOfNodeCount(p *Program, ev *storeEvent) string {
 func init() {
 	checks["C13"] = checkC13
 	checks["C17"] = checkC17
+}
+
+// nodeCounterField: the builder field that counts all nodes, identified as the
+// capacity handed to the bitmap builder whose result becomes Slim.NodeTypeBM
+// (the node-type bitmap has one bit per node). "" when not found.
+func nodeCounterField(p *Program) string {
+	name := ""
+	for _, f := range p.FuncsOf(triePath) {
+		instrsOf(f, func(_ *ssa.BasicBlock, in ssa.Instruction) {
+			st, ok := in.(*ssa.Store)
+			if !ok {
+				return
+			}
+			_, fv, fa := fieldOfAddr(st.Addr)
+			if fa == nil || fv.Name() != "NodeTypeBM" {
+				return
+			}
+			if n := namedOf(fa.X.Type()); n == nil || n.Obj().Name() != "Slim" {
+				return
+			}
+			call, ok := st.Val.(*ssa.Call)
+			if !ok || len(call.Call.Args) < 2 {
+				return
+			}
+			if ld, ok := deref(call.Call.Args[1]); ok {
+				if _, cv, ca := fieldOfAddr(ld); ca != nil {
+					name = cv.Name()
+				}
+			}
+		})
+	}
+	return name
 }
